@@ -1,6 +1,6 @@
 """Queries over the exported HIR expression trees (type-checked, paths resolved)."""
 
-PAT_KINDS = {"Wild", "Bind", "PLit", "PPath", "PTS", "PStruct", "Or", "PTup", "PRef", "PRange", "PGuard", "POther"}
+PAT_KINDS = {"Wild", "Bind", "PLit", "PPath", "PTS", "PStruct", "Or", "PTup", "PRef", "PRange", "PGuard", "PSlice", "POther"}
 
 
 def is_node(x):
@@ -184,6 +184,8 @@ def render_pat(p):
         return " | ".join(render_pat(a) for a in p["alts"])
     if k == "PTup":
         return "(%s)" % ", ".join(render_pat(s) for s in p["subs"])
+    if k == "PSlice":
+        return "[%s]" % ", ".join([render_pat(s) for s in p.get("before", [])] + ([".."] if "rest" in p else []) + [render_pat(s) for s in p.get("after", [])])
     if k == "PRef":
         return "&" + render_pat(p["sub"])
     if k == "PRange":
